@@ -38,9 +38,10 @@ class Pool(object):
 
 
 class TM(object):
-    def __init__(self, g, G, meta):
+    def __init__(self, g, G, meta, meta_buffer=0):
         self.grid = G
-        self.meta_grid = g.MetaGrid(G, meta, 0) if tuple(meta) != (1, 1) else None
+        # (the tile manager's own meta grid carries the configured meta_buffer; the walker must not use it for the coverage tests)
+        self.meta_grid = g.MetaGrid(G, meta, meta_buffer) if (tuple(meta) != (1, 1) or meta_buffer) else None
 
     def cleanup(self):
         pass
@@ -151,7 +152,7 @@ class SeedWalk(Harness):
         g, G, seeder, covm = ctx['g'], ctx['G'], ctx['seeder'], ctx['cov']
         levels, meta, tl = list(cfg['levels']), tuple(cfg['meta']), cfg['target_level']
         coverage, rects = make_coverage(g, G, covm, ctx['srs'], cfg, cov)
-        tm = TM(g, G, meta)
+        tm = TM(g, G, meta, cfg.get('tm_buffer', 0))
         task = seeder.SeedTask({'name': 'x', 'cache_name': 'c', 'grid_name': 'g'}, tm, levels, None, False, coverage)
         pool = Pool()
         w = seeder.TileWalker(task, pool, handle_uncached=True, skip_geoms_for_last_levels=cfg.get('skip_geoms', 0))
@@ -356,6 +357,7 @@ def obligations(tier, seed):
     cfgs.append(dict(grid='strip', levels=[1, 2], meta=[1, 1], target_level=2, cov_box=[[0, 120], [0, 0], [380, 720], [500, 500]], tag='wide2'))
     # polygon (L-shaped) coverage: a contained tile is followed by a sibling that only intersects
     cfgs.append(dict(grid='f2', levels=[1, 2], meta=[1, 1], target_level=2, shape='L', tag='L'))
+    cfgs.append(dict(grid='f2', levels=[1, 2], meta=[2, 2], target_level=2, shape='L', tm_buffer=80, tag='L-buffer80'))
     if tier == 'thorough':
         cfgs.append(dict(grid='f2', levels=[0, 1, 2], meta=[2, 2], target_level=2, shape='L', tag='L'))
         cfgs.append(dict(grid='nonsq', levels=[1, 2], meta=[1, 1], target_level=2, shape='L', tag='L'))
